@@ -231,6 +231,9 @@ class Shifts(Stage):
         return res
 
 
+LISTINGS = ['list .get_registry ~ 1', 'list .get_registry, .sync ~ 9', 'list', 'list ~ 1', 'list .get_registry', 'list .sync ~ 1', 'list .get_registry, .sync ~ 2', 'list wl_callback ~ 1', 'list * ~ 2']
+
+
 class SinkSessions(Stage):
     """the connection-id interface (what GDB mode drives): connections open and close while time goes on - also when for a while
     no connection is open at all; every shown time is still the message's time minus the first message's, and separators sit
@@ -246,12 +249,23 @@ class SinkSessions(Stage):
         t = d.choice([0, 1000, 5_000_000, 123_456_789])
         for _ in range(d.int(4, 30)):
             t += d.choice([0, 1000, 250_000, 999_999, 1_000_000, 1_000_001, 2_500_000]) if d.chance(0.8) else d.int(0, 3_000_000)
-            k = d.weighted([(3, 'open'), (3, 'close'), (10, 'message'), (3, 'cmd')])
-            if k == 'cmd':
+            k = d.weighted([(3, 'open'), (3, 'close'), (10, 'message'), (3, 'cmd'), (2, 'old-listing')])
+            if k == 'old-listing':
+                # a listing that shows messages from a while ago, and soon after it the next live message (of the live view's last
+                # message, not of the listing's last line, that one is the neighbour)
+                if is_open and len(ops) > 3:
+                    ops.append(['cmd', None, d.choice(['list .get_registry', 'list .get_registry ~ 1', 'list .get_registry, .sync ~ 9']), t])
+                    t += d.choice([0, 1000, 250_000, 999_999, 1_000_000])
+                    ops.append(['message', d.choice(is_open), d.choice(['sync', 'done', 'delete_id']), t])
+            elif k == 'cmd':
                 # typed while messages stream in (GDB mode): commands that show no message - a listing that matches nothing or does
                 # not parse, queries, help - leave the live view's sense of "the message shown before" alone
                 ops.append(['cmd', None, d.choice(['list xdg_toplevel', 'list .nope', 'list (', 'list wl_a@5', 'help', 'connection', 'filter', 'breakpoint',
                                                    'matcher wl_display', 'list zz: *', 'frob', 'list ~ x']), t])
+                if d.chance(0.35):
+                    # ... and a listing that does show messages (old ones, as a rule): the separators of the live view are about
+                    # the messages of the live view, a listing in between is not one of them
+                    ops[-1][2] = d.choice(LISTINGS)
             elif k == 'message' and is_open:
                 ops.append(['message', d.choice(is_open), d.choice(['sync', 'done', 'get_registry', 'delete_id']), t])
             elif k == 'close' and is_open:
@@ -280,6 +294,7 @@ class SinkSessions(Stage):
         first_t = prev_t = None
         times = []
         gap_open = False
+        after_listing = False
         for op in case['ops']:
             kind, cid, arg, t = op
             n0 = len(out.buffer)
@@ -290,7 +305,10 @@ class SinkSessions(Stage):
             if kind == 'cmd':
                 ctl.process_command(arg)
                 if any(session.MSG_LINE.match(l) for l in out.buffer[n0:].split('\n')):
-                    raise RuntimeError('harness: %r showed a message' % arg)
+                    if arg not in LISTINGS:
+                        raise RuntimeError('harness: %r showed a message' % arg)
+                    after_listing = True
+                    res.label('listing-between-live-messages')
                 continue
             if kind == 'close':
                 cm.close_connection(t / 1e6, cid)
@@ -328,7 +346,18 @@ class SinkSessions(Stage):
                 res.bad('sink:time-column' + (':after-all-connections-closed' if gap_open else ''), '%r shown at %s, exact %d us after the first message' % (
                     line, session.MSG_LINE.match(ml[0]).group(1), exact))
                 break
-            if prev_t is not None:
+            if prev_t is not None and after_listing:
+                # the first live message after a listing: the listed lines are not its neighbours in the live view, so a gap of
+                # at most a second to the live message before it cannot earn a separator; whether a longer gap across the listing
+                # does is not settled by the statement (the tool starts afresh after a listing) and is only counted
+                after_listing = False
+                if t - prev_t <= 1_000_000:
+                    if sl:
+                        res.bad('sink:separator-spurious:after-a-listing', 'before %r: %d us after the live message before it (a listing in between), separators %r' % (line, t - prev_t, sl))
+                        break
+                else:
+                    res.count('gap-across-a-listing(unspecified)')
+            elif prev_t is not None:
                 want = t - prev_t > 1_000_000
                 if bool(sl) != want:
                     res.bad('sink:separator-' + ('missing' if want else 'spurious'), 'before %r: gap %d us, separators %r' % (line, t - prev_t, sl))
